@@ -457,15 +457,9 @@ def generation_windows(ctx, an: Anchors) -> list:
         f = an.ctx_method(name)
         cfg = a.cfg(f)
         stores = [n for n, m in a.func_mutations(f) if any(p[-1] == an.resource_table and len(p) >= 2 for p in expand_alias(f, m.path)) and m.kind != "rebind"]
-        reads = []
-        for n in cfg.live_nodes():
-            root = cfg.own_ast(n)
-            if root is None:
-                continue
-            for e in iter_own(root):
-                if isinstance(e, ast.Attribute) and e.attr == an.resource_table and isinstance(e.ctx, ast.Load) and n not in stores:
-                    reads.append(n)
-                    break
+        from .tables import node_reads_table
+
+        reads = [n for n in cfg.live_nodes() if n not in stores and node_reads_table(a, an, f, cfg, n, an.resource_table)]
         out.append((f, cfg, reads, stores))
     return out
 
@@ -526,5 +520,8 @@ def run(ctx) -> None:
         c04.rule_stored_before_return(ctx, an, gs, ga, "C03.R3")
     else:
         ctx.rep.unrecognised("C03.R3", gs.f, gs.f.node, "generation branch not recognised")
+    from . import c18
+
+    c18.hit_test_rule(ctx, an, "C03.R3")
     rule_r4(ctx, an)
     rule_r5(ctx, an)
